@@ -123,6 +123,12 @@ func init() {
 			call.RespMsgs = nil
 			call.TrailersOnly = c.Choose("trailers-only", 2) == 0
 		}
+		extraTrailer := tp == vanguard.ProtocolConnect && c.Choose("extra-http-trailer", 2) == 1
+		if extraTrailer {
+			// a middleware in front of a Connect backend adds a real HTTP trailer (Server-Timing
+			// style); whatever happens to that one, the RPC's own metadata must survive
+			c.Attr("~extra-http-trailer", "true")
+		}
 		if style > 0 {
 			call.DeclTrailers = true
 			if style >= 2 {
@@ -134,10 +140,26 @@ func init() {
 				}
 			}
 		}
+		if extraTrailer {
+			inner := call.Mutate
+			call.Mutate = func(sr *wire.ServerResp, rep *world.Reply) {
+				if inner != nil {
+					inner(sr, rep)
+				}
+				if sr == nil {
+					rep.ExtraHTTPTrailer = http.Header{"X-Middleware-Timing": {"db;dur=5"}}
+				}
+			}
+		}
 		obs := call.run()
 		if obs.Err != nil {
 			c.Fail("harness.setup", "%v", obs.Err)
 			return
+		}
+		if extraTrailer && obs.CResp != nil {
+			// the fate of the middleware's own trailer is not judged
+			obs.CResp.Meta.Del("X-Middleware-Timing")
+			obs.CResp.AppHeaders.Del("X-Middleware-Timing")
 		}
 		desc := func() string {
 			return fmt.Sprintf("%s error=%v trailer-style=%d\n request headers %v, response headers %v, trailers %v\n backend saw: %s\n client: %s", b.key, isErr, style, reqH, respH, trailers,
